@@ -35,12 +35,12 @@ pub fn ll_grammars(tier: Tier) -> Vec<Gram> {
 pub fn print_spaces() {
     for (s, d, t, a) in [(4, 2, 2, false), (5, 2, 2, false), (6, 2, 2, false), (6, 3, 2, false), (5, 2, 3, false), (4, 2, 1, true), (5, 2, 2, true), (7, 2, 2, false)] {
         let t0 = std::time::Instant::now();
-        println!("ebnf size<={s} depth<={d} t={t} with_a={a}: {} in {:?}", enum_ebnf(s, d, t, a, false).len(), t0.elapsed());
+        crate::outln!("ebnf size<={s} depth<={d} t={t} with_a={a}: {} in {:?}", enum_ebnf(s, d, t, a, false).len(), t0.elapsed());
     }
     for sz in [7, 8, 9] {
         let t = std::time::Instant::now();
         let b = enum_bnf(&BnfSpace { max_nt: 2, max_t: 2, max_len: 3, max_alts: 3, max_size: sz }, false);
-        println!("bnf nt2 t2 len3 alts3 size {sz}: {} in {:?}", b.len(), t.elapsed());
+        crate::outln!("bnf nt2 t2 len3 alts3 size {sz}: {} in {:?}", b.len(), t.elapsed());
     }
 }
 
